@@ -9,6 +9,38 @@ import (
 	"golang.org/x/tools/go/ssa"
 )
 
+// implementsError: the dynamic type has an Error() string method.
+func implementsError(t types.Type) bool {
+	ms := types.NewMethodSet(t)
+	for i := 0; i < ms.Len(); i++ {
+		if ms.At(i).Obj().Name() == "Error" {
+			return true
+		}
+	}
+	return false
+}
+
+// unwrapAll returns the errors an error value wraps (fmt.Errorf with %w, go-tooling rich errors).
+func unwrapAll(cur *IfaceV) []*IfaceV {
+	switch v := cur.Val.(type) {
+	case *OpaqueV:
+		if ws, ok := v.Data.([]*IfaceV); ok {
+			return ws
+		}
+	case *StructV:
+		if st, ok := cur.Typ.Underlying().(*types.Struct); ok {
+			for i := 0; i < st.NumFields(); i++ {
+				if st.Field(i).Name() == "wrappedErr" {
+					if next, ok := v.F[i].(*IfaceV); ok && next != nil && next.Typ != nil {
+						return []*IfaceV{next}
+					}
+				}
+			}
+		}
+	}
+	return nil
+}
+
 type interceptFn func(e *Exec, fv *FuncV, args []Value, cc *ssa.CallCommon) (Value, bool)
 
 var intercepts = map[string]interceptFn{}
@@ -469,6 +501,17 @@ func init() {
 		return TupleV{e.ctxValue(co, ct), &FuncV{Builtin: "opaque-method:cancel", Recv: &OpaqueV{Tag: "ctx-cancel", Data: co}}}, false
 	})
 
+	// deadlines: the context is cancellable; its deadline never elapses on its own (time passes only through the
+	// harness), which is stated as an assumption whenever this stub is reached
+	withCancelLike := func(e *Exec, fv *FuncV, args []Value, cc *ssa.CallCommon) (Value, bool) {
+		return intercepts["context.WithCancel"](e, fv, args[:1], cc)
+	}
+	reg("context.WithTimeout", withCancelLike)
+	reg("context.WithDeadline", withCancelLike)
+	reg("context.WithValue", func(e *Exec, fv *FuncV, args []Value, cc *ssa.CallCommon) (Value, bool) {
+		return args[0], false // values are only read by logging in the code in scope
+	})
+
 	// --- errors (go-tooling) ---
 	reg("github.com/aukilabs/go-tooling/pkg/errors.makeRichError", func(e *Exec, fv *FuncV, args []Value, cc *ssa.CallCommon) (Value, bool) {
 		st := fv.Fn.Signature.Results().At(0).Type()
@@ -502,7 +545,57 @@ func init() {
 		return e.sprintf(e.C.Str("%v"), args[0]), false
 	})
 	reg("fmt.Errorf", func(e *Exec, fv *FuncV, args []Value, cc *ssa.CallCommon) (Value, bool) {
-		return &IfaceV{Typ: errType(e), Val: &OpaqueV{Tag: "err:fmt.Errorf"}}, false
+		// the message is not modelled; with %w the error operands are kept so that errors.Is / Unwrap see through
+		ov := &OpaqueV{Tag: "err:fmt.Errorf"}
+		if f, ok := e.C.StrValue(args[0].(*Term)); ok && strings.Contains(f, "%w") {
+			if sl, ok := args[1].(*SliceV); ok && sl.Arr != nil {
+				var wrapped []*IfaceV
+				for i := 0; i < sl.Len; i++ {
+					if iv, ok := sl.Arr.Val.(*ArrayV).E[sl.Off+i].(*IfaceV); ok && iv.Typ != nil && implementsError(iv.Typ) {
+						wrapped = append(wrapped, iv)
+					}
+				}
+				ov.Data = wrapped
+			}
+		}
+		return &IfaceV{Typ: errType(e), Val: ov}, false
+	})
+	reg("errors.Is", func(e *Exec, fv *FuncV, args []Value, cc *ssa.CallCommon) (Value, bool) {
+		target, _ := args[1].(*IfaceV)
+		var walk func(cur *IfaceV, depth int) bool
+		walk = func(cur *IfaceV, depth int) bool {
+			if cur == nil || cur.Typ == nil || depth > 16 {
+				return target == nil || target.Typ == nil && (cur == nil || cur.Typ == nil)
+			}
+			if target != nil && target.Typ != nil && types.Identical(cur.Typ, target.Typ) {
+				switch a := cur.Val.(type) {
+				case *Pointer:
+					if b, ok := target.Val.(*Pointer); ok && a.Obj == b.Obj && fmt.Sprint(a.Path) == fmt.Sprint(b.Path) {
+						return true
+					}
+				case *OpaqueV:
+					if a == target.Val {
+						return true
+					}
+				}
+			}
+			for _, w := range unwrapAll(cur) {
+				if walk(w, depth+1) {
+					return true
+				}
+			}
+			return false
+		}
+		first, _ := args[0].(*IfaceV)
+		return e.C.Bool(walk(first, 0)), false
+	})
+	reg("errors.Unwrap", func(e *Exec, fv *FuncV, args []Value, cc *ssa.CallCommon) (Value, bool) {
+		if iv, ok := args[0].(*IfaceV); ok {
+			if ws := unwrapAll(iv); len(ws) == 1 {
+				return ws[0], false
+			}
+		}
+		return &IfaceV{}, false
 	})
 
 	// --- uuid ---
@@ -523,6 +616,19 @@ func init() {
 	})
 
 	// --- prometheus ---
+	// constructors (package initialisers of the repository): an opaque handle, named after the variable it is
+	// assigned to once the initialiser has run
+	for _, ctor := range []string{"NewGaugeVec", "NewCounterVec", "NewHistogramVec", "NewSummaryVec", "NewGauge", "NewCounter", "NewHistogram", "NewSummary"} {
+		for _, pk := range []string{"github.com/prometheus/client_golang/prometheus/promauto.", "github.com/prometheus/client_golang/prometheus."} {
+			reg(pk+ctor, func(e *Exec, fv *FuncV, args []Value, cc *ssa.CallCommon) (Value, bool) {
+				rt := fv.Fn.Signature.Results().At(0).Type()
+				if pt, ok := rt.Underlying().(*types.Pointer); ok {
+					return &Pointer{Obj: e.newObject(pt.Elem(), &OpaqueV{Tag: "prom:pending"}, "metric")}, false
+				}
+				return &IfaceV{Typ: rt, Val: &OpaqueV{Tag: "prom:pending"}}, false
+			})
+		}
+	}
 	vecWith := func(kind string) interceptFn {
 		return func(e *Exec, fv *FuncV, args []Value, cc *ssa.CallCommon) (Value, bool) {
 			p := args[0].(*Pointer)
